@@ -294,6 +294,7 @@ func allKinds() []kind {
 	ks = append(ks, kindDur(), kindClaim(), kindValFee(), kindAddSec(), kindConv())
 	ks = append(ks, kindEntParams(), kindRegParams(), kindStrParams())
 	ks = append(ks, kindCoins("coins.lt"), kindCoins("coins.gt"))
+	ks = append(ks, kindOwnerGate())
 	return ks
 }
 
@@ -999,4 +1000,28 @@ func kindCoins(name string) kind {
 			return t
 		},
 		func(r *rand.Rand) string { return name + " " + randCoinSet(r) + " " + randCoinSet(r) }}
+}
+
+
+// kindOwnerGate: the table is the whole domain (2 modules x 19 stored spellings x 3 recorders)
+func kindOwnerGate() kind {
+	all := func() []string {
+		var t []string
+		for _, m := range []string{"wrk", "bcn"} {
+			var stored []string
+			for _, c := range []string{"A", "U", "F", "T"} {
+				for i := 0; i < 4; i++ {
+					stored = append(stored, fmt.Sprintf("%s%d", c, i))
+				}
+			}
+			stored = append(stored, "J", "-", "none")
+			for _, s := range stored {
+				for j := 0; j < 3; j++ {
+					t = append(t, fmt.Sprintf("ownergate %s %s A%d", m, s, j))
+				}
+			}
+		}
+		return t
+	}
+	return kind{"ownergate", all, func(r *rand.Rand) string { t := all(); return t[r.Intn(len(t))] }}
 }
